@@ -104,6 +104,44 @@ pub fn run(l: &[i128]) -> Vec<i128> {
             }
             vec![a.data().iter().zip(bb.data()).filter(|(x, y)| x != y).count() as i128]
         }
+        Some(8) if l.len() == 13 => {
+            // fill_rect(rect, paint, ts) == fill_path(rect as a path, paint, ts) for a paint whose shader must follow the transform
+            // (aliased, whole-pixel rectangle: both rasterise the same pixels)
+            use tiny_skia::{GradientStop, LinearGradient, Pattern, Point, Rect, SpreadMode, Color, FilterQuality};
+            let t = ts(&l[1..7]);
+            let shader_kind = l[7];
+            let (x, y, w, h) = (l[8] as f32, l[9] as f32, l[10] as f32, l[11] as f32);
+            let draw_pixmap = l[12] != 0;
+            let rect = match Rect::from_xywh(x, y, w, h) {
+                Some(r) => r,
+                None => return vec![-2],
+            };
+            let mut src = Pixmap::new(6, 5).unwrap();
+            for (i, p) in src.pixels_mut().iter_mut().enumerate() {
+                *p = tiny_skia::PremultipliedColorU8::from_rgba((i * 8) as u8, 255 - (i * 7) as u8, (i * 3) as u8, 255).unwrap();
+            }
+            let mut paint = Paint::default();
+            paint.anti_alias = false;
+            paint.shader = if shader_kind == 0 {
+                LinearGradient::new(Point::from_xy(0.0, 0.0), Point::from_xy(24.0, 10.0),
+                    vec![GradientStop::new(0.0, Color::from_rgba8(255, 0, 0, 255)), GradientStop::new(1.0, Color::from_rgba8(0, 0, 255, 255))],
+                    SpreadMode::Reflect, Transform::identity()).unwrap()
+            } else {
+                Pattern::new(src.as_ref(), SpreadMode::Repeat, FilterQuality::Nearest, 1.0, Transform::from_translate(1.0, 2.0))
+            };
+            let mut a = Pixmap::new(48, 40).unwrap();
+            let mut bb = Pixmap::new(48, 40).unwrap();
+            if draw_pixmap {
+                // draw_pixmap(x, y, ts) == draw_pixmap(0, 0, ts . translate(x, y))
+                let pp = tiny_skia::PixmapPaint::default();
+                a.draw_pixmap(x as i32, y as i32, src.as_ref(), &pp, t, None);
+                bb.draw_pixmap(0, 0, src.as_ref(), &pp, t.pre_translate(x, y), None);
+            } else {
+                a.fill_rect(rect, &paint, t, None);
+                bb.fill_path(&PathBuilder::from_rect(rect), &paint, FillRule::Winding, t, None);
+            }
+            vec![a.data().iter().zip(bb.data()).filter(|(x, y)| x != y).count() as i128, a.data().iter().filter(|x| **x != 0).count() as i128]
+        }
         _ => vec![-3],
     }
 }
